@@ -1,9 +1,10 @@
 """Sidecar contracts (DESIGN.md Appendix A). One module per repository module."""
 def install_all(reg):
-    from pyvc import sdmodel, pnmodel, strmodel
+    from pyvc import sdmodel, pnmodel, strmodel, vsmodel
     strmodel.install(reg)
     sdmodel.install(reg)
     pnmodel.install(reg)
+    vsmodel.install(reg)
     from . import space_utils, deps, succession_diagram, algorithms, petri_net, trappist
     space_utils.install(reg)
     deps.install(reg)
@@ -22,6 +23,8 @@ def install_all(reg):
     candidates.install(reg)
     candidates.install_helpers(reg)
     candidates.install_helpers2(reg)
+    from . import symbolic
+    symbolic.install(reg)
     algorithms.install(reg)
     algorithms.install_skipnode(reg)
     algorithms.install_target(reg)
